@@ -15,6 +15,12 @@ TECH = {
             "same stubs as C01; n, rpc enumerated except the encoding obligation"),
     "C11": ("CrossHair/z3 symbolic execution against a logging abstract filesystem; assertions on the request log",
             "fsspec file contract; n, rpc, steps enumerated; offsets/sizes symbolic"),
+    "C07": ("CrossHair/z3 symbolic execution of open_image / read_cache / create_cache / cli.create_cache / array codec on a world model with symbolic cache state, options and product protocol; concrete end-to-end witness replays",
+            "json, pathlib, hashlib, fsspec, construct record parsing are contract stubs (validated each run); geometry and rpc enumerated per instance"),
+    "C09": ("CrossHair/z3 symbolic execution of the cache glue with both index locations symbolic over absent/complete/torn-at-k (k, length symbolic)",
+            "interrupted writes are modelled by the prefixes they leave; json prefix lemma validated on every prefix of a real document each run"),
+    "C10": ("CrossHair/z3: one inductive step of a symbolic operation from an arbitrary state satisfying the cache invariant; option threading and aliasing decided on symbolic options",
+            "induction over histories by invariant preservation; sub-openers are stand-ins in the option-threading obligation"),
     "C18": ("CrossHair/z3 with symbolic file size and symbolic file names; z3 tiling proof on live layouts",
             "record length concrete per instance; xarray dimension check and construct short-read behaviour are contracts"),
 }
